@@ -35,6 +35,26 @@ theorem failure_propagates (fuel : Nat) (c : Ctx) (t : Tok) (rest : List Node) (
     execKids (fuel+1) c (.script t :: rest) buf = .error e := by
   simp [execKids, h, bind, Except.bind]
 
+/-- **No failure is swallowed by later siblings, whatever the failing node is** — element, text, script,
+`@render`, `@children`, filter, comment …: if a node that is not a control line fails, the sibling list
+fails with the same cause and nothing after it runs (control lines are interpreted by the list itself). -/
+theorem failure_propagates_any (fuel : Nat) (c : Ctx) (k : Node) (rest : List Node) (buf : Buf) (e : Fail)
+    (hk : ∀ o i b, k ≠ .silent o i b)
+    (h : execNode fuel c k buf = .error e) :
+    execKids (fuel+1) c (k :: rest) buf = .error e := by
+  cases k <;> first
+    | (exfalso; exact hk _ _ _ rfl)
+    | simp [execKids, h, bind, Except.bind]
+
+/-- … and a node that succeeds hands its buffer to the rest of the list: siblings run left to right. -/
+theorem success_continues (fuel : Nat) (c : Ctx) (k : Node) (rest : List Node) (buf b1 : Buf)
+    (hk : ∀ o i b, k ≠ .silent o i b)
+    (h : execNode fuel c k buf = .ok b1) :
+    execKids (fuel+1) c (k :: rest) buf = execKids fuel c rest b1 := by
+  cases k <;> first
+    | (exfalso; exact hk _ _ _ rfl)
+    | simp [execKids, h, bind, Except.bind]
+
 /-- … nor by an enclosing element: a failure among the children fails the element. -/
 theorem failure_propagates_children_block (fuel : Nat) (c : Ctx) (t : Tok) (buf : Buf) (e : Fail)
     (kids : List Node) (env : Env) (own : Option Clo) (hc : c.own = some (Clo.mk kids env own))
